@@ -63,7 +63,7 @@ TEXT.update({
     "C17": {"technique": "fault enumeration: mem::forget after every call-string prefix of every iterator kind; ledger + structure gate + further use; ASan (no LSan) and Miri (ignore leaks)",
             "design_ref": "DESIGN.md section 5 C17", "level_note": _MEM_NOTE,
             "level_text": "Fault enumeration: the 'fault' is the program leaking the iterator; all leak points for lengths 0..=6 (quick) / 0..=9 (thorough) are enumerated."},
-    "C18": {"technique": "run-time read-out of the compile-time auto-trait table via a trait probe over a 4x4x4 witness matrix; cross-thread use under Miri's race detector",
+    "C18": {"technique": "run-time read-out of the compile-time auto-trait table via a trait probe over a 4x4x4 witness matrix; cross-thread use (also with non-'static parameters in a separate exercise program whose failure to compile is the verdict) under Miri's race detector",
             "design_ref": "DESIGN.md section 5 C18", "level_note": "PARTIAL: only the Send/Sync sentence is decided. The borrowing sentence (references and borrowing iterators keep the cache borrowed) is about programs the compiler rejects; lifetimes are erased before anything runs, so runtime monitoring cannot witness it; a compile-fail probe would be a different technique and is not used. A lifetime-loosening change is invisible to this check.",
             "level_text": "Other: the truth table is complete for the witness matrix (64 instantiations x 2 traits); the generic 'whenever' direction is sampled by those witnesses, which is what an execution-based technique can do for a compile-time property."},
     "C19": {"technique": "MMU write trap (mprotect-ed arena) under every &self operation on 1 and 4 threads + byte hash; Miri and ThreadSanitizer race detection on reader threads",
